@@ -253,7 +253,7 @@ class EvolvingAnsatzMinimumEigensolverResultJSONDecoder(JSONDecoder):
         result.eigenstate = object_dict["evolving_ansatz_result_eigenstate"]
         result.best_individual = object_dict["evolving_ansatz_result_best_individual"]
         result.circuit_evaluations = object_dict["evolving_ansatz_result_circuit_evaluations"]
-        result.generation = object_dict["evolving_ansatz_result_generations"]
+        result.generations = object_dict["evolving_ansatz_result_generations"]
         result.population_evaluation_results = object_dict["evolving_ansatz_population_evaluation_results"]
         result.initial_state_circuit = object_dict["evolving_ansatz_population_initial_state_circuit"]
 
